@@ -483,6 +483,11 @@ def rule_par(ctx):
 
 
 def run(ctx):
+    from ..report import SubCtx
+    from . import c07
+    sub_c07 = SubCtx(ctx, 'C14.stamp', 'an event is played as a bundle stamped at logical time plus latency: the send-instant and timetag rules, as decided for C07')
+    c07.rule_src(sub_c07)
+    c07.rule_tag(sub_c07)
     rule_accum(ctx)
     rule_pitch_chain(ctx)
     rule_mono(ctx)
